@@ -121,6 +121,21 @@ chk('C12',
     COMMON_NOTE, 'bounded-exhaustive configuration enumeration + explicit-state (BFS) history exploration + fresh-process references per hash seed',
     'DESIGN.md section 4 C12')
 
+chk('C14',
+    'Derivation exploration of annotation spellings: abstract content (value or absence of each reserved key from a table of numeric spellings, 0-2 free keys) -> positional prefix / keyword split '
+    '-> every order of the entries incl. keyword entries in front of positional ones; at base-graph level (read, and resolved with node reuse 1-3), atomistic fragment level (bracket atoms, annotated '
+    'hydrogen, single-atom fragment, stereocentre; fragment reuse 1-3) and coarse fragment level (keyword form). Oracle: reference semantics R-annot of the abstract content on the reader output, '
+    'on the fragment template and on every copy in the resolved graphs. One recorded defect (q on coarse fragment nodes) is reported as KNOWN-FINDING.',
+    COMMON_NOTE, 'bounded-exhaustive derivation of annotation spellings vs reference semantics on reader and resolver',
+    'DESIGN.md section 4 C14')
+chk('C20',
+    'Fault enumeration over exhaustively generated hosts: every valid sentence of the graph grammar within the bound (<=4-5 nodes, branches, rings in both marker styles, bond symbols, multipliers; '
+    'seed-selected 6-node slice) and every resolver input of the bounded family x every injection position of the listed faults (dangling ring marker, duplicate edge via ring bond, node without fragment, '
+    'annotation with two "=", too many positional values, non-numeric reserved value, on graph nodes and on bracket atoms); about 4 million faulty inputs in the quick tier; each must raise the documented '
+    'class on the real reader / resolver and return no graph. Injections that yield a valid input are recognised by the reference denotation and dropped.',
+    COMMON_NOTE, 'exhaustive fault-position enumeration over bounded-exhaustively generated valid inputs',
+    'DESIGN.md section 4 C20')
+
 NOT_YET = {}
 
 def main():
